@@ -40,6 +40,8 @@ type treeCtx struct {
 	callSites   []*Node
 }
 
+var knownSeen int
+
 type replayT struct {
 	Seed   int64  `json:"seed"`
 	Tree   string `json:"tree"`
@@ -65,10 +67,15 @@ func runC09() {
 	rep.Rule = "random call trees (depth<=3 quick/5 thorough; frames entered by CALL/STATICCALL/DELEGATECALL/CALLCODE, each ending in STOP/REVERT/INVALID, failure caught or propagated; bodies mix SSTORE, LOG0 and precompile calls: approveShares, delegateV2, crossChain(FX,value), transferFromShares failing after its allowance write, delegateV2 failing inside, approveShares failing before the action, write methods through non-CALL opcodes) run on the real EVM at ample gas and on a ladder of gas limits from below intrinsic to above observed usage; non-trivial = a native action started and at least one frame failed; distinct by (tree, gas limit)"
 	w := NewWorld(seed)
 	var items []string
-	for t := 0; t < ntrees; t++ {
+	for t := -1; t < ntrees; t++ {
 		g := NewGen(r, w, thorough)
 		g.rewards = t%8 == 3 // one tree in eight may trigger finding C09-1
-		root := g.Tree()
+		var root *Node
+		if t < 0 {
+			root = witnessC091(g) // the minimal replay of finding C09-1, every run
+		} else {
+			root = g.Tree()
+		}
 		tc := prepare(w, root)
 		desc := describe(root, 0)
 		fail := func(kind, what, sig string, gas uint64, detail string) {
@@ -376,6 +383,11 @@ func (tc *treeCtx) judge(rep *lib.Report, rr runRes, gas uint64, desc string, fa
 			if kind == "monitor" {
 				sig = "C09:delegationRewards-unjournaled:" + strings.TrimPrefix(sig, "C09:")
 				what = "delegationRewards writes the native store outside ExecuteNativeAction: " + what
+				rep.Count("known_finding_C09-1_occurrences")
+				knownSeen++
+				if knownSeen > 6 {
+					return // the report keeps 50 failures: do not let a known finding crowd out anything else
+				}
 			}
 			fail0(kind, what, sig, gas, detail)
 		}
@@ -587,4 +599,17 @@ func min(a, b int) int {
 		return a
 	}
 	return b
+}
+
+// witnessC091: user -> A { CALL B (failure ignored) ; STOP },  B { STATICCALL staking.delegationRewards ; REVERT }.
+// B's frame is discarded by the EVM, the transaction succeeds, nothing else happens: the store must be unchanged.
+func witnessC091(g *Gen) *Node {
+	root := &Node{Kind: NFrame, ID: g.id(), CallKind: lib.CALL, Addr: 0, End: "return"}
+	b := &Node{Kind: NFrame, ID: g.id(), CallKind: lib.CALL, Addr: 1, End: "revert", Caught: true}
+	m := &Marker{ID: g.id(), Kind: MkRewards, Ctx: 1}
+	g.w.fill(m)
+	b.Body = []*Node{{Kind: NPCall, ID: m.ID, CallKind: lib.STATICCALL, M: m}}
+	root.Body = []*Node{b}
+	g.nextAddr = 2
+	return root
 }
